@@ -69,6 +69,11 @@ Record state := mkState {
   log : list sig                 (* signals sent during the current operation *)
 }.
 
+(* add/update after fixes/C43-marked-only-add-update.diff:
+   self.filter(f) and not (self.show_marked and not f.marked) *)
+Definition shows (s : state) (f : flow) : bool :=
+  fmatches (filt s) f && negb (show_marked s && negb (fmarked f)).
+
 Definition init : state := mkState [] [] [] 0 ODefault false false false None [] [].
 
 Definition set_heap x s := mkState x (store s) (view s) (filt s) (okey s) (reversed s) (show_marked s) (focus_follow s) (focus s) (settings s) (log s).
@@ -345,8 +350,8 @@ Definition add (fs : list flow) : M unit :=
     if memN id st then ret tt
     else
       modify (fun s => set_store (store s ++ [id]) (set_heap (hset (heap s) f) s)) ;;;
-      flt <- gets filt ;;
-      if fmatches flt f then
+      s1 <- gets (fun s => s) ;;
+      if shows s1 f then
         _base_add id ;;;
         ff <- gets focus_follow ;;
         (if ff then focus_set_flow (Some id) else ret tt) ;;;
@@ -361,7 +366,7 @@ Definition update (ids : list N) : M unit :=
     st <- gets store ;;
     if memN id st then
       s <- gets (fun s => s) ;;
-      if fmatches (filt s) (attr s id) then
+      if shows s (attr s id) then
         b <- _view_contains id ;;
         if negb b then
           _base_add id ;;;
